@@ -216,6 +216,8 @@ type Frame struct {
 	inLoop bool
 	// deferred calls (arguments evaluated at the defer statement), run in reverse order by RunDefers
 	defers []deferredCall
+	// fnOv: the function value the next dynamic call uses instead of its operand (one alternative of a FuncSel)
+	fnOv Value
 }
 
 type deferredCall struct {
@@ -1598,4 +1600,14 @@ func (fr *Frame) stepTolerant(in ssa.Instruction) {
 		}
 	}()
 	fr.step(in)
+}
+
+// AssumedString lists the path's assumed atoms (debugging).
+func (it *Interp) AssumedString() string {
+	var out []string
+	for a, v := range it.assume {
+		out = append(out, fmt.Sprintf("%v:%s", v, clip(a.String(), 60)))
+	}
+	sort.Strings(out)
+	return strings.Join(out, " | ")
 }
